@@ -93,6 +93,11 @@ func OrderActionsLike(got *workflow.Plan, want *workflow.Plan) {
 		}
 	}
 	fix := func(as []*workflow.Action) {
+		for _, a := range as {
+			if a == nil {
+				return // a nil element: left as it is, the comparison reports it
+			}
+		}
 		sort.SliceStable(as, func(i, j int) bool {
 			ri, oki := rank[as[i].ID]
 			rj, okj := rank[as[j].ID]
